@@ -95,7 +95,11 @@ fn of_block(b: &syn::Block) -> Value {
             Stmt::Expr(Expr::ForLoop(f), _) => {
                 let Expr::MethodCall(m) = &*f.expr else { return json!({"unknown": text(b)}) };
                 if m.method != "into_properties" { return json!({"unknown": text(b)}) }
-                cur = cur.map(|c| add(c, json!({"flatten": of_expr(&m.receiver)})));
+                // the loop body is `if required {property} else {optional}` — or, for a flattened Option, `optional` alone
+                let all_optional = !matches!(f.body.stmts.first(), Some(Stmt::Expr(Expr::If(_), _)));
+                let mut inner = of_expr(&m.receiver);
+                if all_optional { if let Some(o) = inner.as_object_mut() { o.insert("optional".into(), json!(true)); } }
+                cur = cur.map(|c| add(c, json!({"flatten": inner})));
             }
             Stmt::Expr(Expr::Path(_), None) if i == n - 1 => {}
             _ => return json!({"unknown": text(b)}),
